@@ -161,3 +161,30 @@ reg('C06', module='c06', level='exploration',
                        'sbv_checked': 100, 'misc_checked': 4},
              'thorough': {'argument_tuples_evaluated': 100000,
                           'sbv_checked': 100, 'misc_checked': 4}})
+
+reg('C12', module='c12', level='exploration',
+    technique=('runtime monitoring: get_free_variables / get_atoms / is_qf / '
+               'get_types / size observed against independent recursive '
+               'definitions and semantic dependence tests with the '
+               'reference evaluator'),
+    rule=('hand-shaped binder/function/Boolean-in-theory cases plus random '
+          'DAGs with sharing; all six size measures queried in random '
+          'interleaved order; distinct = structural key of the formula'),
+    level_text=('every answer is compared with an independently written '
+                'definition on the formula structure, and the value of the '
+                'formula is re-evaluated with non-reported symbols perturbed '
+                'and through the Boolean skeleton over the reported atoms.'),
+    level_note=('size measures follow the definitions documented in '
+                'SizeOracle; sorts: every sort of a symbol/bound '
+                'variable/constant/function signature must be reported, '
+                'sorts of intermediate terms may be'),
+    assumptions=['reference evaluator trusted for the dependence tests'],
+    require={'quick': {'free_vars_compared': 3000, 'atoms_compared': 1500,
+                       'sizes_compared': 30000, 'types_compared': 3000,
+                       'atom_skeleton_checks': 3000,
+                       'dependence_checks': 1000},
+             'thorough': {'free_vars_compared': 50000,
+                          'atoms_compared': 20000, 'sizes_compared': 300000,
+                          'types_compared': 50000,
+                          'atom_skeleton_checks': 30000,
+                          'dependence_checks': 10000}})
